@@ -387,3 +387,327 @@ Lemma selector_keys_known :
    [112;101;101;114;45;97;115];
    [114;111;117;116;101;114;45;105;100]].
 Proof. vm_compute. reflexivity. Qed.
+
+(* ------------------------------------------------------------------ selectors as text *)
+Definition clean_char (c : Z) : bool := negb (is_space c) && negb (c =? COMMA).
+Definition word (w : list Z) : Prop := w <> [] /\ forallb clean_char w = true.
+
+Fixpoint pair_in (k v : list Z) (ws : list (list Z)) : bool :=
+  match ws with
+  | w1 :: r => match r with
+               | w2 :: _ => (zeqb k w1 && zeqb v w2) || pair_in k v r
+               | [] => false
+               end
+  | [] => false
+  end.
+
+Definition sep (rest : list Z) : Prop := rest = [] \/ exists r, rest = SP :: r.
+
+Lemma clean_not_space : forall c, clean_char c = true -> is_space c = false /\ (c =? COMMA) = false.
+Proof.
+  intros c H. unfold clean_char in H. apply andb_true_iff in H. destruct H as [A B].
+  apply negb_true_iff in A. apply negb_true_iff in B. split; assumption.
+Qed.
+
+Lemma clean_not_sp : forall c, clean_char c = true -> (c =? SP) = false /\ (SP =? c) = false.
+Proof.
+  intros c H. apply clean_not_space in H. destruct H as [H _].
+  assert (c <> SP). { intro E. subst c. vm_compute in H. discriminate. }
+  split; apply Z.eqb_neq; auto.
+Qed.
+
+Lemma skip_word : forall t w rest b, w <> [] -> forallb clean_char w = true ->
+  re_search_from b t (w ++ rest) = (b && match_at t (w ++ rest)) || re_search_from false t rest.
+Proof.
+  intros t w. induction w as [|c w IH]; intros rest b Hne Hc; [congruence|].
+  cbn [forallb] in Hc. apply andb_true_iff in Hc. destruct Hc as [Hc Hw].
+  destruct (clean_not_space c Hc) as [Hs _].
+  destruct w as [|c' w'].
+  - cbn [app re_search_from]. rewrite Hs. reflexivity.
+  - change ((c :: c' :: w') ++ rest) with (c :: ((c' :: w') ++ rest)).
+    cbn [re_search_from]. rewrite Hs. rewrite IH; [|discriminate|exact Hw].
+    cbn [andb orb]. reflexivity.
+Qed.
+
+Lemma search_false_sep : forall t rest, sep rest ->
+  re_search_from false t rest = match rest with [] => false | _ :: r => re_search_from true t r end.
+Proof.
+  intros t rest [E|[r E]]; subst rest; cbn [re_search_from andb orb]; reflexivity.
+Qed.
+
+Definition after_sp (v rest : list Z) : bool :=
+  match rest with [] => false | c :: r => (SP =? c) && match_at v r end.
+
+Lemma match_key : forall k w v rest, forallb clean_char k = true -> forallb clean_char w = true -> sep rest ->
+  match_at (k ++ SP :: v) (w ++ rest) = zeqb k w && after_sp v rest.
+Proof.
+  induction k as [|a k IH]; intros w v rest Hk Hw Hs.
+  - destruct w as [|c w].
+    + cbn [app match_at zeqb andb after_sp]. destruct rest; reflexivity.
+    + cbn [forallb] in Hw. apply andb_true_iff in Hw. destruct Hw as [Hc _].
+      destruct (clean_not_sp c Hc) as [_ H2]. cbn [app match_at zeqb]. rewrite H2. reflexivity.
+  - cbn [forallb] in Hk. apply andb_true_iff in Hk. destruct Hk as [Ha Hk].
+    destruct w as [|c w].
+    + cbn [app zeqb andb]. destruct Hs as [E|[r E]]; subst rest; cbn [match_at].
+      * reflexivity.
+      * destruct (clean_not_sp a Ha) as [H1 _]. rewrite H1. reflexivity.
+    + cbn [forallb] in Hw. apply andb_true_iff in Hw. destruct Hw as [Hc Hw].
+      change ((a :: k) ++ SP :: v) with (a :: (k ++ SP :: v)).
+      change ((c :: w) ++ rest) with (c :: (w ++ rest)).
+      cbn [match_at zeqb]. rewrite (IH w v rest Hk Hw Hs). rewrite andb_assoc. reflexivity.
+Qed.
+
+Lemma match_value : forall v w rest, forallb clean_char v = true -> forallb clean_char w = true -> sep rest ->
+  match_at v (w ++ rest) = zeqb v w.
+Proof.
+  induction v as [|a v IH]; intros w rest Hv Hw Hs.
+  - destruct w as [|c w].
+    + cbn [app match_at zeqb]. destruct Hs as [E|[r E]]; subst rest; reflexivity.
+    + cbn [forallb] in Hw. apply andb_true_iff in Hw. destruct Hw as [Hc _].
+      destruct (clean_not_space c Hc) as [H1 H2]. cbn [app match_at zeqb]. rewrite H1, H2. reflexivity.
+  - cbn [forallb] in Hv. apply andb_true_iff in Hv. destruct Hv as [Ha Hv].
+    destruct w as [|c w].
+    + cbn [app zeqb]. destruct Hs as [E|[r E]]; subst rest; cbn [match_at].
+      * reflexivity.
+      * destruct (clean_not_sp a Ha) as [H1 _]. rewrite H1. reflexivity.
+    + cbn [forallb] in Hw. apply andb_true_iff in Hw. destruct Hw as [Hc Hw].
+      change ((c :: w) ++ rest) with (c :: (w ++ rest)). cbn [match_at zeqb].
+      rewrite (IH w rest Hv Hw Hs). reflexivity.
+Qed.
+
+Lemma join_cons : forall w ws, exists rest, join (w :: ws) = w ++ rest /\ sep rest.
+Proof.
+  intros w ws. destruct ws as [|w2 ws'].
+  - exists []. cbn [join]. rewrite app_nil_r. split; [reflexivity | left; reflexivity].
+  - exists (SP :: join (w2 :: ws')). split; [reflexivity | right; eexists; reflexivity].
+Qed.
+
+Lemma search_tokens : forall k v ws,
+  k <> [] -> forallb clean_char k = true -> forallb clean_char v = true ->
+  Forall word ws ->
+  re_search_from true (k ++ SP :: v) (join ws) = pair_in k v ws.
+Proof.
+  intros k v ws Hkne Hk Hv. induction ws as [|w ws IH]; intros Hws.
+  - cbn [join re_search_from pair_in]. destruct k; [congruence|]. reflexivity.
+  - inversion Hws as [|w' ws' [Hwne Hwc] Hrest]; subst.
+    destruct ws as [|w2 ws2].
+    + cbn [join pair_in]. rewrite <- (app_nil_r w) at 1.
+      rewrite skip_word; [|exact Hwne|exact Hwc].
+      rewrite match_key; [|exact Hk|exact Hwc|left; reflexivity].
+      cbn [after_sp re_search_from]. rewrite andb_false_r. destruct k; [congruence|]. reflexivity.
+    + change (join (w :: w2 :: ws2)) with (w ++ SP :: join (w2 :: ws2)).
+      rewrite skip_word; [|exact Hwne|exact Hwc].
+      rewrite match_key; [|exact Hk|exact Hwc|right; eexists; reflexivity].
+      rewrite search_false_sep; [|right; eexists; reflexivity].
+      cbn [after_sp andb]. rewrite Z.eqb_refl. cbn [andb].
+      rewrite (IH Hrest).
+      inversion Hrest as [|w2' ws2' [Hw2ne Hw2c] _]; subst.
+      destruct (join_cons w2 ws2) as [rest [E Hs]]. rewrite E.
+      rewrite match_value; [|exact Hv|exact Hw2c|exact Hs].
+      cbn [pair_in]. reflexivity.
+Qed.
+
+Lemma zeqb_eq : forall a b, zeqb a b = true <-> a = b.
+Proof.
+  induction a as [|x a IH]; intros b; destruct b as [|y b]; cbn [zeqb]; split; intros H; try reflexivity; try discriminate.
+  - apply andb_true_iff in H. destruct H as [H1 H2]. apply Z.eqb_eq in H1. apply IH in H2. subst. reflexivity.
+  - inversion H; subst. rewrite Z.eqb_refl. cbn. apply IH. reflexivity.
+Qed.
+
+Lemma clean_char_spec : forall c, clean_char c = true <-> (~ white c /\ c <> 44).
+Proof.
+  intros c. unfold clean_char, is_space, white, COMMA. split.
+  - intros H. apply andb_true_iff in H. destruct H as [A B]. apply negb_true_iff in A. apply negb_true_iff in B.
+    apply Z.eqb_neq in B. split; [|exact B]. intros W. apply orb_false_iff in A. destruct A as [A1 A2].
+    apply andb_false_iff in A1. apply andb_false_iff in A2.
+    destruct A1 as [A1|A1]; destruct A2 as [A2|A2];
+      try apply Z.leb_gt in A1; try apply Z.leb_gt in A2; lia.
+  - intros [W N]. apply andb_true_iff. split; apply negb_true_iff.
+    + apply orb_false_iff. split; apply andb_false_iff.
+      * destruct (9 <=? c) eqn:E1; [|left; reflexivity]. right. apply Z.leb_gt. apply Z.leb_le in E1.
+        destruct (Z_le_gt_dec c 13); [exfalso; apply W; left; lia | lia].
+      * destruct (28 <=? c) eqn:E1; [|left; reflexivity]. right. apply Z.leb_gt. apply Z.leb_le in E1.
+        destruct (Z_le_gt_dec c 32); [exfalso; apply W; right; lia | lia].
+    + apply Z.eqb_neq. exact N.
+Qed.
+
+Lemma token_word : forall w, token w -> word w.
+Proof.
+  intros w [Hne Hf]. split; [exact Hne|]. apply forallb_forall. intros c Hc.
+  rewrite Forall_forall in Hf. apply clean_char_spec. apply Hf. exact Hc.
+Qed.
+
+Lemma pair_in_occurs : forall k v ws, pair_in k v ws = true <-> pair_occurs k v ws.
+Proof.
+  intros k v ws. unfold pair_occurs. induction ws as [|w1 r IH].
+  - cbn. split; [discriminate|]. intros [b [a E]]. destruct b; discriminate.
+  - destruct r as [|w2 r'].
+    + cbn. split; [discriminate|]. intros [b [a E]]. destruct b as [|x b]; [discriminate|].
+      destruct b; discriminate.
+    + cbn [pair_in]. rewrite orb_true_iff, andb_true_iff, !zeqb_eq, IH. split.
+      * intros [[E1 E2]|[b [a E]]].
+        -- subst. exists [], r'. reflexivity.
+        -- exists (w1 :: b), a. rewrite E. reflexivity.
+      * intros [b [a E]]. destruct b as [|x b].
+        -- cbn [app] in E. injection E as E1 E2 E3. subst. left. split; reflexivity.
+        -- cbn [app] in E. injection E as E1 E2. right. exists b, a. exact E2.
+Qed.
+
+Theorem match_is_token_equality : forall k v ws,
+  token k -> token v -> Forall token ws ->
+  (re_search (k ++ 32 :: v) (join ws) = true <-> pair_occurs k v ws).
+Proof.
+  intros k v ws Hk Hv Hws. rewrite <- pair_in_occurs. unfold re_search.
+  destruct (token_word k Hk) as [Hkne Hkc]. destruct (token_word v Hv) as [_ Hvc].
+  change 32 with SP. rewrite search_tokens; [reflexivity | exact Hkne | exact Hkc | exact Hvc |].
+  rewrite Forall_forall in *. intros w Hw. apply token_word. apply Hws. exact Hw.
+Qed.
+
+(* a key is never a value: the pair can only sit on a field *)
+Lemma pair_in_fields : forall k v fields,
+  (forall p, In p fields -> zeqb k (snd p) = false) ->
+  pair_in k v (name_tokens fields) = existsb (fun p => zeqb k (fst p) && zeqb v (snd p)) fields.
+Proof.
+  intros k v fields. induction fields as [|[k1 v1] ps IH]; intros H.
+  - reflexivity.
+  - cbn [name_tokens flat_map app fst snd existsb]. fold (name_tokens ps). cbn [pair_in].
+    rewrite <- IH; [|intros p Hp; apply H; right; exact Hp].
+    assert (Hk : zeqb k v1 = false) by (apply (H (k1, v1)); left; reflexivity).
+    destruct (name_tokens ps) as [|w2 r]; cbn [pair_in]; [reflexivity|].
+    rewrite Hk. cbn [andb orb]. reflexivity.
+Qed.
+
+Theorem match_is_field_equality : forall k v fields,
+  token k -> token v ->
+  (forall p, In p fields -> token (fst p) /\ token (snd p) /\ k <> snd p) ->
+  (re_search (k ++ 32 :: v) (join (name_tokens fields)) = true <-> In (k, v) fields).
+Proof.
+  intros k v fields Hk Hv Hf.
+  rewrite match_is_token_equality; [| exact Hk | exact Hv |].
+  - rewrite <- pair_in_occurs. rewrite pair_in_fields.
+    + rewrite existsb_exists. split.
+      * intros [[k1 v1] [Hin E]]. apply andb_true_iff in E. destruct E as [E1 E2].
+        apply zeqb_eq in E1. apply zeqb_eq in E2. cbn in E1, E2. subst. exact Hin.
+      * intros Hin. exists (k, v). split; [exact Hin|]. cbn. apply andb_true_iff. split; apply zeqb_eq; reflexivity.
+    + intros p Hp. destruct (zeqb k (snd p)) eqn:E; [|reflexivity]. apply zeqb_eq in E.
+      destruct (Hf p Hp) as [_ [_ N]]. congruence.
+  - unfold name_tokens. rewrite Forall_forall. intros w Hw. apply in_flat_map in Hw.
+    destruct Hw as [p [Hp Hw]]. destruct (Hf p Hp) as [T1 [T2 _]].
+    destruct Hw as [E|[E|[]]]; subst; assumption.
+Qed.
+
+(* a value that is only the beginning of the peer's value selects nothing (and likewise an end) *)
+Corollary prefix_never_selects : forall k v extra fields,
+  token k -> token v -> extra <> [] ->
+  (forall p, In p fields -> token (fst p) /\ token (snd p) /\ k <> snd p) ->
+  (forall v', In (k, v') fields -> v' = v ++ extra) ->
+  re_search (k ++ 32 :: v) (join (name_tokens fields)) = false.
+Proof.
+  intros k v extra fields Hk Hv Hne Hf Hu.
+  destruct (re_search (k ++ 32 :: v) (join (name_tokens fields))) eqn:E; [|reflexivity].
+  apply (match_is_field_equality k v fields Hk Hv Hf) in E. apply Hu in E.
+  exfalso. apply Hne. apply (f_equal (@length Z)) in E. rewrite app_length in E.
+  destruct extra; [reflexivity|]. cbn in E. lia.
+Qed.
+
+(* ------------------------------------------------------------------ groups, main loop *)
+Lemma inline_atomic : forall all st sel subs,
+  match all_parsed subs with
+  | None => fst (gexec all st (GInline sel subs)) = st /\ snd (gexec all st (GInline sel subs)) = greply st Error
+  | Some ops => subs <> [] ->
+      g_ribs (fst (gexec all st (GInline sel subs))) = apply_sel sel ops (g_ribs st) /\
+      snd (gexec all st (GInline sel subs)) = greply st Done
+  end.
+Proof.
+  intros all st sel subs. destruct (all_parsed subs) as [ops|] eqn:E.
+  - intros Hne. destruct subs as [|s subs]; [congruence|]. cbn [gexec]. rewrite E. split; reflexivity.
+  - destruct subs as [|s subs]; [discriminate|]. cbn [gexec]. rewrite E. split; reflexivity.
+Qed.
+
+Lemma end_atomic : forall all st b, g_buf st = Some b ->
+  g_buf (fst (gexec all st GEnd)) = None /\
+  match all_parsed b with
+  | None => g_ribs (fst (gexec all st GEnd)) = g_ribs st /\ snd (gexec all st GEnd) = greply st Error
+  | Some ops => g_ribs (fst (gexec all st GEnd)) = apply_sel all ops (g_ribs st) /\ snd (gexec all st GEnd) = greply st Done
+  end.
+Proof.
+  intros all st b Hb. cbn [gexec]. rewrite Hb. destruct b as [|s b].
+  - cbn. split; [reflexivity|]. split; [|reflexivity]. unfold g_ribs, apply_sel. cbn.
+    induction (x_ribs (g_x st)) as [|nc r IH]; [reflexivity|]. cbn [map]. rewrite <- IH.
+    destruct (memz (fst nc) all); [destruct nc|]; reflexivity.
+  - destruct (all_parsed (s :: b)) as [ops|]; cbn; repeat split; reflexivity.
+Qed.
+
+Lemma lines_buffered : forall all subs st b outs, g_buf st = Some b -> length outs = length subs ->
+  fst (grun all st (map (fun p => GLine (fst p) (snd p)) (combine subs outs))) = mkG (g_x st) (Some (b ++ subs)) /\
+  snd (grun all st (map (fun p => GLine (fst p) (snd p)) (combine subs outs))) = map (fun _ => greply st Done) subs.
+Proof.
+  intros all subs. induction subs as [|s subs IH]; intros st b outs Hb Hl.
+  - destruct outs; [|discriminate]. cbn. rewrite app_nil_r. destruct st as [x bb]. cbn in Hb. subst bb. split; reflexivity.
+  - destruct outs as [|o outs]; [discriminate|]. cbn [combine map grun gexec fst snd]. rewrite Hb.
+    specialize (IH (mkG (g_x st) (Some (b ++ [s]))) (b ++ [s]) outs eq_refl). cbn [length] in Hl.
+    assert (Hl' : length outs = length subs) by lia. specialize (IH Hl'). destruct IH as [I1 I2].
+    destruct (grun all (mkG (g_x st) (Some (b ++ [s]))) (map (fun p => GLine (fst p) (snd p)) (combine subs outs))) as [st2 l] eqn:R.
+    cbn [fst snd g_x] in *. rewrite I1, I2. rewrite <- app_assoc. split; reflexivity.
+Qed.
+
+Lemma iterate_one : forall st, l_async st = [] ->
+  l_async (iterate 1 st) = [] /\
+  l_written (iterate 1 st) ++ map snd (l_wait (iterate 1 st)) = l_written st ++ map snd (l_wait st).
+Proof.
+  intros st Ha. unfold iterate. destruct (l_wait st) as [|[k id] w] eqn:W.
+  - cbn. rewrite Ha, app_nil_r. split; reflexivity.
+  - cbn [firstn skipn fold_left]. unfold process1. cbn [fst snd]. destruct k; cbn; rewrite Ha; cbn;
+      rewrite ?app_nil_r, <- ?app_assoc; split; reflexivity.
+Qed.
+
+Lemma lrun_order : forall evs st, l_async st = [] ->
+  l_async (lrun 1 st evs) = [] /\
+  l_written (lrun 1 st evs) ++ map snd (l_wait (lrun 1 st evs)) = l_written st ++ map snd (l_wait st) ++ arrived evs.
+Proof.
+  induction evs as [|e evs IH]; intros st Ha.
+  - cbn. rewrite app_nil_r. split; [exact Ha | reflexivity].
+  - cbn [lrun fold_left]. fold (lrun 1 (lstep 1 st e) evs). destruct e as [k id|].
+    + destruct (IH (lstep 1 st (Arrive k id)) Ha) as [I1 I2]. split; [exact I1|]. rewrite I2. cbn.
+      rewrite map_app. cbn. rewrite <- !app_assoc. reflexivity.
+    + destruct (iterate_one st Ha) as [J1 J2]. destruct (IH (iterate 1 st) J1) as [I1 I2].
+      split; [exact I1|]. cbn [lstep arrived flat_map app]. rewrite I2. rewrite app_assoc, J2, <- app_assoc. reflexivity.
+Qed.
+
+Lemma batching_reorders :
+  l_written (lrun 2 linit [Arrive Scheduled 1; Arrive Immediate 2; Iterate]) = [2; 1].
+Proof. reflexivity. Qed.
+
+Lemma inline_refused : forall all st sel subs, all_parsed subs = None ->
+  gexec all st (GInline sel subs) = (st, greply st Error).
+Proof.
+  intros all st sel subs E. pose proof (inline_atomic all st sel subs) as H. rewrite E in H.
+  destruct H as [H1 H2]. destruct (gexec all st (GInline sel subs)) as [s r]. cbn in *. subst. reflexivity.
+Qed.
+
+Lemma inline_applied : forall all st sel subs ops, all_parsed subs = Some ops -> subs <> [] ->
+  g_ribs (fst (gexec all st (GInline sel subs))) = apply_sel sel ops (g_ribs st) /\
+  snd (gexec all st (GInline sel subs)) = greply st Done.
+Proof.
+  intros all st sel subs ops E Hne. pose proof (inline_atomic all st sel subs) as H. rewrite E in H. exact (H Hne).
+Qed.
+
+Lemma end_refused : forall all st b, g_buf st = Some b -> all_parsed b = None ->
+  gexec all st GEnd = (mkG (g_x st) None, greply st Error).
+Proof.
+  intros all st b Hb E. cbn [gexec]. rewrite Hb. destruct b as [|s b]; [discriminate|]. rewrite E. reflexivity.
+Qed.
+
+Lemma end_applied : forall all st b ops, g_buf st = Some b -> all_parsed b = Some ops ->
+  g_buf (fst (gexec all st GEnd)) = None /\
+  g_ribs (fst (gexec all st GEnd)) = apply_sel all ops (g_ribs st) /\
+  snd (gexec all st GEnd) = greply st Done.
+Proof.
+  intros all st b ops Hb E. destruct (end_atomic all st b Hb) as [H1 H2]. rewrite E in H2.
+  destruct H2 as [H2 H3]. repeat split; assumption.
+Qed.
+
+Lemma scheduler_order : forall evs,
+  l_async (lrun 1 linit evs) = [] /\
+  l_written (lrun 1 linit evs) ++ map snd (l_wait (lrun 1 linit evs)) = arrived evs.
+Proof. intros evs. destruct (lrun_order evs linit eq_refl) as [H1 H2]. split; [exact H1 | exact H2]. Qed.
